@@ -535,8 +535,8 @@ func main() {
 		}
 		addPlain(newSchemaCase(fmt.Sprintf("rand%d", i), schema.Random(rng, c)), randSets)
 	}
-	addPair := func(id string, v1 schema.File, prob float64, sets []pkgbuild.Options) {
-		v2, _ := schema.Evolve(rng, v1, schema.EvolveConfig{Prob: prob, Gen: gcfg})
+	addPair := func(id string, v1 schema.File, prob, undep float64, sets []pkgbuild.Options) {
+		v2, _ := schema.Evolve(rng, v1, schema.EvolveConfig{Prob: prob, Undeprecate: undep, Gen: gcfg})
 		s1, s2 := newSchemaCase(id+"v1", v1), newSchemaCase(id+"v2", v2)
 		cases[s1.id], cases[s2.id] = s1, s2
 		for _, o := range sets {
@@ -544,9 +544,9 @@ func main() {
 		}
 	}
 	if e.props["C04"] {
-		addPair("evobase", schema.EvolveBase(), 1, pairSets)
+		addPair("evobase", schema.EvolveBase(), 1, -1, pairSets) // Ev.c is live in v2 (the peer still sends it), Ev.d stays deprecated
 		for i := 0; i < nPairs; i++ {
-			addPair(fmt.Sprintf("evorand%d", i), schema.Random(rng, gcfg), 0.8, pairSets[:2])
+			addPair(fmt.Sprintf("evorand%d", i), schema.Random(rng, gcfg), 0.8, 0.6, pairSets[:2])
 		}
 	}
 
